@@ -318,18 +318,24 @@ struct Rec {
     tr.emit(vh::Json("Eff").raw("G", geom_json(g)).boolean("err", err).raw("effs", err ? "[]" : tab));
   }
   // apply then undo on one set of related viewgrams (fresh random data)
-  void related(Obj& o, const Geo& g, ProjDataInMemory& data, const Sym& s, const ViewSegmentNumbers& vs, int k, bool undo_first) {
+  // part: 0 = the object itself; 1 / 2 = ChainedBinNormalisation::apply_only_first / _second (undo_only_...)
+  static const char* part_name(int part) { return part == 1 ? "first" : part == 2 ? "second" : "all"; }
+  void related(Obj& o, const Geo& g, ProjDataInMemory& data, const Sym& s, const ViewSegmentNumbers& vs, int k, bool undo_first, int part = 0) {
     RelatedViewgrams<float> rv = data.get_related_viewgrams(vs, s.sym, false, k);
+    ChainedBinNormalisation* ch = dynamic_cast<ChainedBinNormalisation*>(o.norm.get());
     for (int step = 0; step < 2; ++step) {
       const bool undo = (step == 0) == undo_first;
       const std::string in = vg_data(rv, enc);
-      const bool err = vh::threw([&] { if (undo) o.norm->undo(rv); else o.norm->apply(rv); });
-      tr.emit(vh::Json(rv_ev).str("op", undo ? "undo" : "apply").str("sym", s.name).raw("G", geom_json(g)).raw("vg", vg_ids(rv))
+      const bool err = vh::threw([&] {
+        if (part == 1) { if (undo) ch->undo_only_first(rv); else ch->apply_only_first(rv); }
+        else if (part == 2) { if (undo) ch->undo_only_second(rv); else ch->apply_only_second(rv); }
+        else if (undo) o.norm->undo(rv); else o.norm->apply(rv); });
+      tr.emit(vh::Json(rv_ev).str("op", undo ? "undo" : "apply").str("part", part_name(part)).str("sym", s.name).raw("G", geom_json(g)).raw("vg", vg_ids(rv))
                   .raw("in", in).raw("out", vg_data(rv, enc)).boolean("err", err));
       if (err) break;
     }
   }
-  void all_related(Obj& o, const Geo& g, const Sym& s, long budget) {
+  void all_related(Obj& o, const Geo& g, const Sym& s, long budget, int part = 0) {
     ProjDataInMemory data(the_exam_info(), g.pdi);
     fill_random(data);
     const std::vector<ViewSegmentNumbers> basics = detail::find_basic_vs_nums_in_subset(*g.pdi, *s.sym, g.pdi->get_min_segment_num(), g.pdi->get_max_segment_num(), 0, 1);
@@ -339,20 +345,23 @@ struct Rec {
       for (int k = g.pdi->get_min_tof_pos_num(); k <= g.pdi->get_max_tof_pos_num(); ++k) {
         ++n;
         if (budget > 0 && total > budget && rng.range(0, (int)(total / budget)) != 0) continue;
-        related(o, g, data, s, vs, k, (n % 3) == 0);
+        related(o, g, data, s, vs, k, (n % 3) == 0, part);
       }
   }
   // apply then undo on a whole data set
-  void whole(Obj& o, const Geo& g, const Sym& s, bool undo_first) {
+  void whole(Obj& o, const Geo& g, const Sym& s, bool undo_first, int part = 0) {
     ProjDataInMemory data(the_exam_info(), g.pdi);
     fill_random(data);
+    ChainedBinNormalisation* ch = dynamic_cast<ChainedBinNormalisation*>(o.norm.get());
     for (int step = 0; step < 2; ++step) {
       const bool undo = (step == 0) == undo_first;
       const std::string in = data5(data, enc);
       const bool err = vh::threw([&] {
-        if (s.sym) { if (undo) o.norm->undo(data, s.sym); else o.norm->apply(data, s.sym); }
+        if (part == 1) { if (undo) ch->undo_only_first(data); else ch->apply_only_first(data); }       // (these take no symmetries argument)
+        else if (part == 2) { if (undo) ch->undo_only_second(data); else ch->apply_only_second(data); }
+        else if (s.sym) { if (undo) o.norm->undo(data, s.sym); else o.norm->apply(data, s.sym); }
         else { if (undo) o.norm->undo(data); else o.norm->apply(data); } });
-      tr.emit(vh::Json(whole_ev).str("op", undo ? "undo" : "apply").str("sym", s.name).raw("G", geom_json(g)).raw("in", in).raw("out", data5(data, enc)).boolean("err", err));
+      tr.emit(vh::Json(whole_ev).str("op", undo ? "undo" : "apply").str("part", part_name(part)).str("sym", s.name).raw("G", geom_json(g)).raw("in", in).raw("out", data5(data, enc)).boolean("err", err));
       if (err) break;
     }
   }
@@ -362,8 +371,8 @@ static long config_id = 0;
 static void begin_config(vh::Trace& tr, const std::string& name) { tr.emit(vh::Json("Config").num("id", ++config_id).str("name", name)); }
 static void emit_obj(vh::Trace& tr, const Obj& o) { tr.emit(vh::Json("Obj").raw("obj", o.json)); }
 
-static Geo make_geo(int N, int R, int maxDelta, int numTang, int tofMash, int maxT, const std::string& label) {
-  c03::DataCfg d; d.N = N; d.R = R; d.maxDelta = maxDelta; d.numTang = numTang; d.tofMash = tofMash; d.maxT = maxT;
+static Geo make_geo(int N, int R, int maxDelta, int numTang, int tofMash, int maxT, const std::string& label, int span = 1, int mash = 1) {
+  c03::DataCfg d; d.N = N; d.R = R; d.maxDelta = maxDelta; d.numTang = numTang; d.tofMash = tofMash; d.maxT = maxT; d.span = span; d.mash = mash;
   Geo g; g.pdi = c03::make_pdi(d); g.scanner = label;
   return g;
 }
@@ -393,22 +402,30 @@ static void exercise(Rec& rec, Obj& o, const Geo& g, int level, bool pre_use) {
     if (level > 0 || (n++ % 2) == 0) rec.whole(o, g, s, n % 2 == 0);
   }
   rec.whole(o, g, Sym{ "default", nullptr }, false);
+  if (!rec.lg && dynamic_cast<ChainedBinNormalisation*>(o.norm.get()))
+    for (int part = 1; part <= 2; ++part) {   // the members of a chain on their own
+      rec.all_related(o, g, syms[part % syms.size()], 8, part);
+      rec.whole(o, g, Sym{ "default", nullptr }, part == 2, part);
+    }
 }
 
 // ---------------------------------------------------------------- exact scenarios
 static void run_exact(vh::Trace& tr, vh::Rng& rng, int level) {
   Rec rec(tr, rng, false);
-  struct Sys { int N, R, numTang, tofMash, maxT; };
-  std::vector<Sys> systems = { { 8, 2, 5, 1, 3 }, { 16, 3, 7, 0, 0 } };
-  if (level > 0) { systems.push_back({ 12, 3, 5, 1, 5 }); systems.push_back({ 8, 3, 7, 3, 9 }); systems.push_back({ 16, 2, 9, 0, 0 }); systems.push_back({ 24, 2, 7, 1, 3 }); }
+  struct Sys { int N, R, numTang, tofMash, maxT, span, mash; };
+  // (the last two: axially compressed data, span 3; mashed views - the factor classes other than the component
+  // model do not care how a bin is made of detector pairs)
+  std::vector<Sys> systems = { { 8, 2, 5, 1, 3, 1, 1 }, { 16, 3, 7, 0, 0, 1, 1 }, { 8, 4, 5, 0, 0, 3, 1 } };
+  if (level > 0) { systems.push_back({ 12, 3, 5, 1, 5, 1, 1 }); systems.push_back({ 8, 3, 7, 3, 9, 1, 1 }); systems.push_back({ 16, 2, 9, 0, 0, 1, 1 });
+                   systems.push_back({ 24, 2, 7, 1, 3, 1, 1 }); systems.push_back({ 16, 4, 7, 1, 3, 3, 2 }); systems.push_back({ 16, 5, 5, 0, 0, 5, 1 }); }
   int sysno = 0;
   for (const Sys& sy : systems) {
     const std::string label = "tiny" + std::to_string(++sysno);
-    const Geo G = make_geo(sy.N, sy.R, sy.R - 1, sy.numTang, sy.tofMash, sy.maxT, label);
+    const Geo G = make_geo(sy.N, sy.R, sy.R - 1, sy.numTang, sy.tofMash, sy.maxT, label, sy.span, sy.mash);
     const bool tof = sy.tofMash > 0;
     const Geo Gn = tof ? non_tof(G) : G;
     const Geo Gsmall = reduced(G, 0);
-    const Geo Gother = make_geo(sy.N, sy.R, sy.R - 1, sy.numTang - 2, sy.tofMash, sy.maxT, label);   // narrower tangential range
+    const Geo Gother = make_geo(sy.N, sy.R, sy.R - 1, sy.numTang - 2, sy.tofMash, sy.maxT, label, sy.span, sy.mash);   // narrower tangential range
 
     // single classes
     begin_config(tr, label + " trivial");
@@ -456,6 +473,9 @@ static void run_exact(vh::Trace& tr, vh::Rng& rng, int level) {
       rec.set_up(o, G);
       rec.all_related(o, Gsmall, groupings(Gsmall.pdi, 0)[1 % groupings(Gsmall.pdi, 0).size()], 6);
       rec.whole(o, Gsmall, Sym{ "default", nullptr }, true);
+      // data with a narrower tangential range also pass the geometry check
+      rec.all_related(o, Gother, groupings(Gother.pdi, 0)[0], 4);
+      rec.whole(o, Gother, Sym{ "default", nullptr }, false);
     }
     {
       // factor data that cannot serve the data: fewer segments / other tangential range / TOF factors for non-TOF data
